@@ -146,6 +146,25 @@ impl SemValue {
         fields
     }
 
+    /// The fields of a product with `arity` components. The spine is followed only that far:
+    /// the last component may itself be a product value (a named product in last position).
+    fn into_product_fields_of(self, arity: usize) -> Vec<Self> {
+        let mut fields = Vec::new();
+        let mut rest = self;
+        loop {
+            match rest {
+                | SemValue::VCons(ConsN(items, tail)) if fields.len() + items.len() < arity => {
+                    fields.extend(items);
+                    rest = *tail;
+                }
+                | last => {
+                    fields.push(last);
+                    return fields;
+                }
+            }
+        }
+    }
+
     fn from_product_fields(mut fields: Vec<Self>) -> Self {
         match fields.len() {
             | 0 => Triv.into(),
@@ -208,10 +227,10 @@ impl<'rt> Eval<'rt> for Value {
                 let tail = mk_box(tail.as_ref().clone().eval(runtime));
                 Step::Done(ConsN(items, tail).into())
             }
-            | Value::Proj(Proj(head, position)) => {
+            | Value::Proj(Proj(head, (position, arity))) => {
                 let head = head.as_ref().clone().eval(runtime);
                 let projected = head
-                    .into_product_fields()
+                    .into_product_fields_of(arity)
                     .into_iter()
                     .nth(position)
                     .expect("type-checked product projection must have a matching field");
